@@ -84,5 +84,5 @@ func historyKinds(tier string) []string {
 	if tier == "thorough" {
 		return env.PreambleKinds
 	}
-	return []string{"mixed", "stream-cancel", "write-fail"}
+	return []string{"mixed", "stream-cancel", "write-fail", "close"}
 }
